@@ -15,5 +15,5 @@ CONSTANTS
   MaxItems = 5
 VIEW view
 INVARIANTS Sys_Resolve Sys_Unique Sys_LocalDot Sys_Stable
-PROPERTIES Sys_BoundNeverChanges Sys_FilesIndependent Sys_RenderPure Sys_PlainTouchesNoFile Sys_CloneIsolation
+PROPERTIES Sys_BoundNeverChanges Sys_FilesIndependent Sys_RenderPure Sys_PlainTouchesNoFile Sys_CloneIsolation Sys_ContentsOnly
 CHECK_DEADLOCK FALSE
